@@ -8,6 +8,7 @@ import OttoVerif.Base.ParseNumber
 import OttoVerif.C05.Obj
 import OttoVerif.C05.Ops2
 import OttoVerif.C06.Spec
+import OttoVerif.C05.StrKind
 namespace OttoVerif.C05.Driver
 open OttoVerif.F64 OttoVerif.Proto OttoVerif.C05
 
@@ -247,8 +248,81 @@ def handleKnd (o a b : String) : String :=
       | none => "bad-op"
   | _, _ => "bad-op"
 
+/-! ### string operands in both internal representations (requests `sk`, `sku`)
+
+  `sk <op> <A> <B>` with op = lt gt le ge eq ne seq sne | add | key (`o[B] = 1; A in o, o[A]`) | sw (`switch (A) { case B: … }`);
+  `sku <op> <A>` with op = typeof not pos neg and or cond.  A, B = [O]<producer>:<units as 4-hex-digit groups, `e` = none>:
+  lit (Go string literal) · fcc (String.fromCharCode(all units): []uint16) · cat (fromCharCode of each unit, joined with +) ·
+  sl (slice of a literal: utf16Value) · cuth / cutl (first / second half of the literal pair: an unpaired surrogate) ·
+  chr (charAt); prefix O = wrapped in `new String(…)`. -/
+open StrKind in
+def svProd? (t : String) : Option (SV × Bool) :=
+  let (isObj, t) := if t.startsWith "O" then (true, String.ofList (t.toList.drop 1)) else (false, t)
+  match t.splitOn ":" with
+  | [k, h] =>
+    match (if h = "e" then some [] else units? h) with
+    | none => none
+    | some us =>
+      let sv : Option SV :=
+        if k = "lit" then some ⟨us, false⟩
+        else if k = "fcc" then some ⟨us, true⟩
+        else if k = "cat" then
+          match us with
+          | [] => some ⟨[], false⟩
+          | u :: r => some (r.foldl (fun acc v => catM acc ⟨[v], true⟩) ⟨[u], true⟩)
+        else if k = "sl" then some (StrKind.utf16Value us)
+        else if k = "cuth" then (us.head?).map fun u => StrKind.utf16Value [u]
+        else if k = "cutl" then (us.drop 1).head?.map fun u => StrKind.utf16Value [u]
+        else if k = "chr" then some ⟨us, false⟩
+        else none
+      sv.map fun v => (v, isObj)
+  | _ => none
+
+def unitsTok (us : List Nat) : String := "u:" ++ (if us.isEmpty then "e" else unitsOut us)
+def bTok (b : Bool) : String := if b then "b:1" else "b:0"
+
+open StrKind in
+def handleSk (o a b : String) : String :=
+  match svProd? a, svProd? b with
+  | some (x, xo), some (y, yo) =>
+    let dev := if hasLone x || hasLone y then "lone_surrogate_operand" else "-"
+    -- what a program reads back from a string with charCodeAt: the units of its Go string form
+    let seen (v : SV) : List Nat := OttoVerif.Str.unitsOfBytes v.string
+    -- model side: ToPrimitive of a String object yields the Go string its constructor stored
+    let xm := if xo then objM x else x
+    let ym := if yo then objM y else y
+    if o = "add" then reply (unitsTok (seen (catM xm ym))) (unitsTok (Spec.catS x y)) dev
+    else if o = "key" then reply (bTok (keyM xm ym)) (bTok (Spec.keyS x y)) dev
+    else if o = "sw" then
+      if xo || yo then reply "b:0" "b:0" "-" else reply (bTok (eqM x y)) (bTok (Spec.eqS x y)) dev
+    else match cmp? o with
+      | some c =>
+        let strictC := c = .seq || c = .sne
+        let eqC := c = .eq || c = .ne
+        let neg := c = .ne || c = .sne
+        if (strictC && (xo || yo)) || (eqC && xo && yo) then reply (bTok neg) (bTok neg) "-"   -- objects: identity
+        else reply (bTok (cmpM c xm ym)) (bTok (Spec.cmpS c x y)) dev
+      | none => "bad-op"
+  | _, _ => "bad-op"
+
+open StrKind in
+def handleSku (o a : String) : String :=
+  match svProd? a with
+  | some (x, xo) =>
+    let tf (b : Bool) : String := if b then "T" else "F"
+    if o = "typeof" then (let t := if xo then "t:object" else "t:string"; reply t t "-")
+    else if o = "not" then reply (bTok (!(xo || boolM x))) (bTok (!(xo || Spec.boolS x))) "-"
+    else if o = "and" ∨ o = "or" ∨ o = "cond" then reply (tf (xo || boolM x)) (tf (xo || Spec.boolS x)) "-"
+    else if o = "pos" then reply ("f:" ++ f64Out (numM env x)) ("f:" ++ f64Out (Spec.numS env x)) "-"
+    else if o = "neg" then
+      reply ("f:" ++ f64Out (let f := numM env x; if isNaN f then .nan else neg f)) ("f:" ++ f64Out (let f := Spec.numS env x; if isNaN f then .nan else neg f)) "-"
+    else "bad-op"
+  | none => "bad-op"
+
 def handle2 (ws : List String) : String :=
   match ws with
+  | ["sk", o, a, b] => handleSk o a b
+  | ["sku", o, a] => handleSku o a
   | ["knd", o, a, b] => handleKnd o a b
   | ["knda", o, a, b] => handleKnd o a b
   | "ex" :: r =>
